@@ -151,6 +151,7 @@ def check_guards(ctx):
         label = "%s: %s" % (q, gid)
         matched = None
         best_loop_problem = None
+        partials = []
         if gid == "offset-count":
             from .C08 import count_guard
             matched = count_guard(fn)
@@ -185,6 +186,8 @@ def check_guards(ctx):
                 if A.nnf_implies(spec, guard_nnf):
                     hit = True
                     break
+                if inl and iter_src is None and A._atoms(guard_nnf, set()) & A._atoms(spec, set()):
+                    partials.append((ifs, guard_nnf))
             if hit:
                 if iter_src is not None:
                     at = q_loop if q_loop is not None else ifs
@@ -212,6 +215,10 @@ def check_guards(ctx):
                         continue
                 matched = ifs
                 break
+        if matched is None and len(partials) > 1 and A.nnf_implies(A.nnf_of_src(cond_src), ("or", frozenset(g for _, g in partials))):
+            # one raise per alternative of a compound condition (`if a: raise` ... `if b: raise` for `a or b`): together they reject every input the
+            # condition describes
+            matched = partials[0][0]
         if matched is None:
             if best_loop_problem:
                 ctx.violate(R, best_loop_problem[0], label, best_loop_problem[1], key=gid)
@@ -398,7 +405,7 @@ def check_order(ctx):
         pass
     for s in A.walk_local(init):
         if isinstance(s, ast.Assign) and dotted(s.targets[0]) in exp:
-            srcs[dotted(s.targets[0])] = canon(s.value)
+            srcs[dotted(s.targets[0])] = canon(A.inline_temporaries(s.value, s, init))
     wantsrc = {"self._nonlinear_equiv_units": canon(parse("get_nonlinear_equiv_units()")),
                "self._linear_equiv_units": canon(parse("get_linear_equiv_units(self.poly_trend)")),
                "self._v0_offsets_equiv_units": canon(parse("get_v0_offsets_equiv_units(self.n_offsets)"))}
